@@ -49,8 +49,8 @@ type Sched struct {
 
 	// Tracked mode (tasks started with Go): the scheduler keeps the state of every task itself instead of asking
 	// synctest for quiescence. That lets it notice a task that was released but neither parks again nor finishes
-	// because the code under test made it wait for another task (a lock, a once, a pool): after StuckAfterMS of real
-	// time without progress the task is set aside as stuck and the others are scheduled on; it rejoins when it parks
+	// because the code under test made it wait for another task (a lock, a once, a pool): after StuckAfterMS of this
+	// process's processor time without progress the task is set aside as stuck and the others are scheduled on; it rejoins when it parks
 	// or finishes. Code that never makes one request wait for another behaves exactly as in the synctest mode.
 	tracked      bool
 	running      int
@@ -103,7 +103,7 @@ func (s *Sched) Go(task string, f func()) {
 	if !s.tracked {
 		s.tracked, s.stuck, s.state = true, map[string]bool{}, map[string]string{}
 		if s.StuckAfterMS == 0 {
-			s.StuckAfterMS = 400
+			s.StuckAfterMS = 250
 		}
 	}
 	s.setState(task, "running")
@@ -118,10 +118,19 @@ func (s *Sched) Go(task string, f func()) {
 	}()
 }
 
+// realMillis measures the processor time this process has used (user + system), in milliseconds. Processor time,
+// not wall-clock time: on a loaded machine the whole process may be off the processor for long stretches, and a task
+// that is merely waiting for its turn must not be taken for one that waits for another task. While the scheduler spins
+// in quiesce a runnable task gets the processor; only a task that stays put while the process burns its threshold of
+// processor time is set aside. (The bubble fakes package time only; getrusage is real.)
 func realMillis() int64 {
-	var tv syscall.Timeval
-	syscall.Gettimeofday(&tv) // the real clock: the bubble fakes package time only
-	return tv.Sec*1000 + int64(tv.Usec)/1000
+	var ru syscall.Rusage
+	if err := syscall.Getrusage(syscall.RUSAGE_SELF, &ru); err != nil {
+		var tv syscall.Timeval
+		syscall.Gettimeofday(&tv)
+		return tv.Sec*1000 + int64(tv.Usec)/1000
+	}
+	return (ru.Utime.Sec+ru.Stime.Sec)*1000 + int64(ru.Utime.Usec+ru.Stime.Usec)/1000
 }
 
 // quiesce waits until no task is running: all are parked, done or stuck.
